@@ -41,8 +41,8 @@ func dslValidationFiles(f string) bool {
 }
 
 func init() {
-	reg("C05", ruleInverseInvolution, ruleWrapperRecursion, ruleChangeKindsConsumed, ruleEndStream)
-	reg("C06", ruleWrapperRecursion, ruleChangeKindsConsumed, ruleChangeDataUsed, ruleE3(evoScope, "E3"), ruleE2(evoScope, "E2"), ruleE5(evoScope, "E5"), ruleMapOrderScoped, rulePrunesPartial(evolutionFiles, "V5", 3))
+	reg("C05", ruleInverseInvolution, ruleWrapperRecursion, ruleChangeKindsConsumed, ruleEndStream, ruleComparersConsultTheirData, rulePreviousSchemasPositional)
+	reg("C06", ruleWrapperRecursion, ruleChangeKindsConsumed, ruleChangeDataUsed, ruleComparersConsultTheirData, ruleE3(evoScope, "E3"), ruleE2(evoScope, "E2"), ruleE5(evoScope, "E5"), ruleMapOrderScoped, rulePrunesPartial(evolutionFiles, "V5", 3))
 	reg("C04", ruleOneSchemaFunction, ruleMarshalCoverage, ruleSchemaCanonical, rulePrunes(schemaFiles, "V5", 2), ruleStateMachineSchemaCheck)
 	reg("C01", rulePlan, ruleRecordOrder, ruleDirectionDuality, ruleCppPrimitiveFamilies, ruleStepFraming, ruleEmptyBatchGuard, ruleEndStream, ruleTrivialRecordTrait)
 	reg("C16", ruleEndStream, ruleStepFraming)
@@ -52,7 +52,7 @@ func init() {
 	reg("C08", ruleEmittedSymbols, ruleSwitchDefaults(backendFiles, "P4", 25), ruleReservedTables, ruleIdentifierHelpers, ruleDependenciesFirst, ruleOptionGating, ruleUniquenessVsMangling)
 	reg("C19", ruleCommonTypeMap, ruleEmitterSiblings, ruleParenthesisation, ruleOperatorTokens, rulePromotionNotBypassed)
 	reg("C13", ruleAliasTable, ruleSpellingErased, ruleShorthandTwins, ruleDocCommentSuffix, ruleTypeTags, ruleSchemaCanonical, rulePrunes(topoSortFiles, "V5", 2))
-	reg("C07", ruleStateMachine)
+	reg("C07", ruleStateMachine, ruleNoReturnBeforeStateGuard)
 	reg("C02", ruleJsonKinds, ruleUnionTagDecision, ruleKindTests, ruleOptionalFieldSymmetry, ruleJsonNamesAreModelNames)
 	reg("C14", rulePlan, ruleRecordOrder, ruleOptionalFieldSymmetry, ruleTrivialRecordTrait)
 	reg("C10", rulePairAccess, ruleConstIndex(frontEndNoEvolution, "P2", 30), ruleMakeBounds, ruleErrorProvenance, ruleBreakInSwitchInLoop, rulePositions, ruleNodeLiteralsPositioned, ruleBigIndex, ruleAborts(frontEndNoEvolution, "P4", 25),
